@@ -75,6 +75,7 @@ type Event struct {
 	Chan        ast.Expr
 	Send        bool
 	NonBlocking bool
+	InSelect    bool // the operation is the communication of a select arm
 
 	// EvEnter/EvExit/EvSkip/EvFuncVal
 	Via     types.Object // combinator through which the closure is invoked
@@ -431,7 +432,7 @@ func (c *fnCtx) condAlts(x ast.Expr, want bool, base Event) alts {
 func (c *fnCtx) chanOpsOfComm(comm ast.Stmt, nonBlocking bool) []Event {
 	var out []Event
 	mk := func(ch ast.Expr, send bool, n ast.Node) {
-		out = append(out, Event{Kind: EvChanOp, Fn: c.fn, Depth: c.depth, Pos: n.Pos(), Node: n, Chan: ch, Send: send, NonBlocking: nonBlocking, Loop: c.inLoop(n.Pos())})
+		out = append(out, Event{Kind: EvChanOp, Fn: c.fn, Depth: c.depth, Pos: n.Pos(), Node: n, Chan: ch, Send: send, NonBlocking: nonBlocking, InSelect: true, Loop: c.inLoop(n.Pos())})
 	}
 	switch s := comm.(type) {
 	case *ast.SendStmt:
